@@ -367,6 +367,8 @@ def main(argv=None):
     if hasattr(mod, "setup"):
         mod.setup()
     shards = list(mod.shards(tier))
+    if os.environ.get("MC_SHARD_FILTER"):  # development aid only: run the shards whose repr contains the substring
+        shards = [s for s in shards if os.environ["MC_SHARD_FILTER"] in repr(s)]
     # seed only rotates the shard order (the enumerated space does not depend on it)
     if shards and seed:
         k = seed % len(shards)
